@@ -104,6 +104,15 @@ fn run<G: Grp>(s: &mut Src, info: &mut Info, key: &mut Key, ctx: &Ctx) -> Result
     let e1 = a.val == b.val;
     let e2 = b.val == a.val;
     ensure!(e1 == same, "eq|value", "{}: (A == B) = {} but k1 {} k2 (A: k={:x} {} = {}; B: k={:x} {} = {})", G::NAME, e1, if same { "==" } else { "!=" }, a.k, a.how, G::show(&a.val), b.k, b.how, G::show(&b.val));
+    if let Some(e3) = G::extra_eq(&a.val, &b.val) {
+        ensure!(e3 == same, "eq|inner-type", "{}: (A.0 == B.0) = {} but k1 {} k2", G::NAME, e3, if same { "==" } else { "!=" });
+    }
+    if let Some(z) = G::extra_is_zero(&a.val) {
+        ensure!(z == a.k.is_zero(), "is_zero|inner-type", "{}: A.0.is_zero() = {} for k = {:x}", G::NAME, z, a.k);
+    }
+    if let Some(af) = G::extra_to_affine(&a.val) {
+        ensure!(af == a.aff, "to_affine|inner-type", "{}: A.0.to_affine() differs from the reference affine coordinates for {}", G::NAME, a.how);
+    }
     ensure!(e2 == same, "eq|not-symmetric", "{}: (B == A) = {} but (A == B) = {}", G::NAME, e2, e1);
     #[allow(clippy::nonminimal_bool)]
     {
